@@ -342,6 +342,12 @@ def cases(quick, seed):
         ("select User.t", ('ntuple', (('a', 'std::int64'),
                                       ('b', ('array', 'std::str'))))),
         ("select User.mr", ('multirange', 'std::int64')),
+        # the same collection types as the stored pointers, spelled in a cast
+        ("select <tuple<a: int64, b: array<str>>>{}",
+         ('ntuple', (('a', 'std::int64'), ('b', ('array', 'std::str'))))),
+        ("select (a := 1, b := ['x'])",
+         ('ntuple', (('a', 'std::int64'), ('b', ('array', 'std::str'))))),
+        ("select <multirange<int64>>{}", ('multirange', 'std::int64')),
         ("select [User.c]", ('array', 'default::Color')),
         ("select 1n", 'std::bigint'), ("select 1.0n", 'std::decimal'),
         ("select to_json('1')", 'std::json'), ("select b'x'", 'std::bytes'),
@@ -1138,6 +1144,138 @@ def work(batch):
     return out
 
 
+# ---------------------------------------------------------------------------
+# the server's own state descriptor (describe_input_shape on a cached,
+# derived Context): histories of make() calls over schemas with different
+# sets of globals
+
+STATE_SCHEMAS = [
+    ('none', ''),
+    ('g1', 'create global default::g1 -> str;'),
+    ('g1g2', 'create global default::g1 -> str; create required global '
+             'default::g2 -> int64 { set default := 1 };'),
+    ('g3g4', 'create global default::g3 -> array<str>; create global '
+             'default::g4 -> tuple<a: int64, b: str>; '
+             'create global default::g5 := 1;'),
+    ('g1int', 'create global default::g1 -> int64;'),
+    ('m2g1', 'create module m2; create global m2::g1 -> str; create scalar '
+             'type default::Col extending enum<r, g>; create global '
+             'default::gc -> default::Col;'),
+]
+STATE_EXPECT = {
+    'none': [],
+    'g1': [('default::g1', 'AT_MOST_ONE', 'std::str')],
+    'g1g2': [('default::g1', 'AT_MOST_ONE', 'std::str'),
+             ('default::g2', 'ONE', 'std::int64')],
+    'g3g4': [('default::g3', 'AT_MOST_ONE', ('array', 'std::str')),
+             ('default::g4', 'AT_MOST_ONE',
+              ('ntuple', (('a', 'std::int64'), ('b', 'std::str'))))],
+    'g1int': [('default::g1', 'AT_MOST_ONE', 'std::int64')],
+    'm2g1': [('default::gc', 'AT_MOST_ONE',
+              ('enum', 'default::Col', ('r', 'g'))),
+             ('m2::g1', 'AT_MOST_ONE', 'std::str')],
+}
+
+
+def work_state(pv):
+    winit()
+    W = _W
+    td, sertypes = W['td'], W['sertypes']
+    comp = W['comp']
+    from edb.schema import schema as s_schema
+    edbcompiler = W['edbcompiler']
+    pv = tuple(pv)
+    v2 = pv >= (2, 0)
+    schemas = {}
+    for name, script in STATE_SCHEMAS:
+        ctx0 = edbcompiler.new_compiler_context(
+            compiler_state=comp.state, user_schema=s_schema.EMPTY_SCHEMA,
+            modaliases={None: 'default'})
+        schemas[name], _ = edbcompiler.compile_edgeql_script(
+            ctx0, 'create module default; ' + script)
+    spec = comp.state.config_spec
+    want_cfg = sorted(s.name for s in spec.values() if not s.system)
+    probs, flats = [], []
+    stats = collections.Counter()
+
+    def fresh(name):
+        f = sertypes.StateSerializerFactory(comp.state.std_schema, spec)
+        return f.make(schemas[name], s_schema.EMPTY_SCHEMA, pv).describe()
+    ref = {n: fresh(n) for n, _ in STATE_SCHEMAS}
+    for name, (tid, data) in ref.items():
+        try:
+            blocks, ann = td.decode(data, pv)
+        except td.DecodeError as e:
+            probs.append(('state:undecodable', f'{name}: {e}'))
+            continue
+        if blocks[-1]['id'] != tid:
+            probs.append(('state:id-not-last-block', name))
+        for i in range(len(blocks)):
+            # ids are compared within one schema only (whether a
+            # collection type is schema-defined is a fact about the schema)
+            flats.append((('v2:' if v2 else 'v1:') + name,
+                          str(blocks[i]['id']),
+                          json.dumps(td.flat(blocks, i), sort_keys=True)))
+        r = td.resolve(blocks, names=True) if v2 else None
+        if r is not None:
+            if r[0] != 'input_shape':
+                probs.append(('state:not-an-input-shape', name))
+                continue
+            els = {e[0]: e for e in r[1]}
+            order = [e[0] for e in r[1]]
+            if order != ['module', 'aliases', 'config', 'globals']:
+                probs.append(('state:top-elements', f'{name}: {order}'))
+                continue
+            if loose(els['module'][3]) != 'std::str' or \
+                    loose(els['aliases'][3]) != (
+                        'array', ('tuple', ('std::str', 'std::str'))):
+                probs.append(('state:module-or-aliases-type', name))
+            cfg = els['config'][3]
+            got_cfg = [e[0] for e in cfg[1]]
+            if got_cfg != want_cfg:
+                probs.append(('state:config-elements',
+                              f'{name}: {got_cfg} vs {want_cfg}'))
+            for e in cfg[1]:
+                st = spec[e[0]]
+                want_card = 'MANY' if st.set_of else 'AT_MOST_ONE'
+                if e[1] != want_card:
+                    probs.append(('state:config-cardinality',
+                                  f'{e[0]}: {e[1]} vs {want_card}'))
+            gl = els['globals'][3]
+            got = [(e[0], e[1], loose(e[3])) for e in gl[1]]
+            want = [(n, c, norm(t)) for n, c, t in STATE_EXPECT[name]]
+            if got != want:
+                probs.append(('state:globals',
+                              f'{name}: {got} vs {want}'))
+            else:
+                stats['state-intent-agrees'] += 1
+    tops = {}
+    for name, (tid, data) in ref.items():
+        tops.setdefault(tid, set()).add(data)
+    if len(tops) != len(ref):
+        probs.append(('state:id-collision',
+                      'two schemas with different globals share a state '
+                      'descriptor id'))
+    # histories on one factory (its per-protocol Context is cached and
+    # derived for every make())
+    names = [n for n, _ in STATE_SCHEMAS]
+    for ln in (1, 2, 3):
+        for hist in itertools.product(names, repeat=ln):
+            f = sertypes.StateSerializerFactory(comp.state.std_schema, spec)
+            out = None
+            for n in hist:
+                out = f.make(schemas[n], s_schema.EMPTY_SCHEMA,
+                             pv).describe()
+            stats['state-histories'] += 1
+            if out != ref[hist[-1]]:
+                probs.append(('state:history-dependent',
+                              f'after make() for {list(hist)} the '
+                              f'descriptor of {hist[-1]!r} differs from a '
+                              f'fresh factory\'s (protocol {pv})'))
+                break
+    return dict(stats), probs, flats
+
+
 _CASES = {}
 
 
@@ -1169,6 +1307,10 @@ def run(ctx):
     res = runner.pmap(ctx, 'props.c14', 'work', tasks,
                       init=('props.c14',
                             'winit_q0' if ctx.quick else 'winit_t0'))
+    sres = runner.pmap(ctx, 'props.c14', 'work_state',
+                       [list(pv) for pv in PVS],
+                       init=('props.c14',
+                             'winit_q0' if ctx.quick else 'winit_t0'))
     stats = collections.Counter()
     idtab = {}       # (fmt, id) -> {flat: example query}
     streamtab = {}   # (fmt, in, kind, id) -> {sha: query}
@@ -1192,6 +1334,15 @@ def run(ctx):
             for fmt, inn, kind, i, sha in streams:
                 streamtab.setdefault((fmt, inn, kind, i), {}).setdefault(
                     sha, case['q'])
+    for pv, (sst, sprobs, sflats) in zip(PVS, sres):
+        stats.update(sst)
+        for kind, detail in sprobs:
+            ctx.violation(f'{kind}|{detail[:120]}',
+                          f'{kind}: protocol {pv}: {detail}',
+                          dict(state=True, pv=list(pv)))
+        for fmt, i, fl in sflats:
+            idtab.setdefault((fmt, i), {}).setdefault(
+                fl, '<state descriptor>')
     for (fmt, i), d in sorted(idtab.items()):
         if len(d) > 1:
             (f1, q1), (f2, q2) = list(d.items())[:2]
